@@ -1,1 +1,599 @@
+(* Lemmas about Spec/StimCircuit.v: the algebra of `fuse` (Stim's merging as a canonical form), flattening,
+   the container operations up to merging, counters. *)
+From Coq Require Import ZArith List String Bool Lia Arith.
+Import ListNotations.
 Require Import TV.Spec.StimCircuit.
+Open Scope string_scope.
+Open Scope list_scope.
+Set Default Timeout 60.
+
+(* ---- keys ------------------------------------------------------------------------------------------------ *)
+Lemma lz_eqb_eq : forall a b, lz_eqb a b = true <-> a = b.
+Proof.
+  induction a as [|x a IH]; intros [|y b]; cbn [lz_eqb]; split; intro H; try discriminate; try reflexivity.
+  - apply andb_true_iff in H as [H1 H2]. apply Z.eqb_eq in H1. apply IH in H2. subst. reflexivity.
+  - injection H as -> ->. rewrite Z.eqb_refl. cbn. apply IH. reflexivity.
+Qed.
+
+Lemma same_key_eq : forall a b, same_key a b = true <->
+  iname a = iname b /\ iargs a = iargs b /\ itag a = itag b.
+Proof.
+  intros a b. unfold same_key. rewrite !andb_true_iff, String.eqb_eq, lz_eqb_eq, Z.eqb_eq. tauto.
+Qed.
+
+Lemma same_key_refl : forall a, same_key a a = true.
+Proof. intro a. apply same_key_eq. auto. Qed.
+
+Lemma can_fuse_inv : forall a b, can_fuse a b = true ->
+  fusable a = true /\ iname a = iname b /\ iargs a = iargs b /\ itag a = itag b.
+Proof. intros a b H. unfold can_fuse in H. apply andb_true_iff in H as [H1 H2]. apply same_key_eq in H2. tauto. Qed.
+
+Lemma same_key_congr : forall a a' b b',
+  iname a = iname a' -> iargs a = iargs a' -> itag a = itag a' ->
+  iname b = iname b' -> iargs b = iargs b' -> itag b = itag b' ->
+  same_key a b = same_key a' b'.
+Proof. intros. unfold same_key. congruence. Qed.
+
+Lemma can_fuse_congr : forall a a' b b',
+  iname a = iname a' -> iargs a = iargs a' -> itag a = itag a' ->
+  iname b = iname b' -> iargs b = iargs b' -> itag b = itag b' ->
+  can_fuse a b = can_fuse a' b'.
+Proof.
+  intros a a' b b' H1 H2 H3 H4 H5 H6. unfold can_fuse, fusable. rewrite H1.
+  f_equal. apply same_key_congr; assumption.
+Qed.
+
+Lemma can_fuse_merge_l : forall i j k, can_fuse i j = true -> can_fuse (merge i j) k = can_fuse j k.
+Proof.
+  intros i j k H. apply can_fuse_inv in H as (_ & Hn & Ha & Ht).
+  apply can_fuse_congr; cbn [merge iname iargs itag]; auto.
+Qed.
+
+Lemma can_fuse_merge_r : forall i j k, can_fuse j k = true -> can_fuse i (merge j k) = can_fuse i j.
+Proof. intros i j k H. apply can_fuse_congr; cbn [merge iname iargs itag]; auto. Qed.
+
+Lemma can_fuse_merge_l' : forall i j k, can_fuse (merge i j) k = can_fuse i k.
+Proof. intros. apply can_fuse_congr; cbn [merge iname iargs itag]; auto. Qed.
+
+Lemma merge_assoc : forall i j k, merge (merge i j) k = merge i (merge j k).
+Proof. intros. unfold merge. cbn [iname iargs itag igroups]. rewrite app_assoc. reflexivity. Qed.
+
+Lemma can_fuse_trans : forall i j k, can_fuse i j = true -> can_fuse j k = true -> can_fuse i k = true.
+Proof.
+  intros i j k H1 H2. apply can_fuse_inv in H1 as (Hf & Hn & Ha & Ht). apply can_fuse_inv in H2 as (_ & Hn2 & Ha2 & Ht2).
+  unfold can_fuse. rewrite Hf. cbn. apply same_key_eq. repeat split; congruence.
+Qed.
+
+(* ---- fuse: canonical form --------------------------------------------------------------------------- *)
+Fixpoint fusedb (l : list instr) : bool :=
+  match l with
+  | i :: ((j :: _) as r) => negb (can_fuse i j) && fusedb r
+  | _ => true
+  end.
+
+Lemma fuse_cons : forall i l, fuse (i :: l) = cons_fuse i (fuse l).
+Proof. reflexivity. Qed.
+
+Lemma cons_fuse_fused : forall i X, fusedb X = true -> fusedb (cons_fuse i X) = true.
+Proof.
+  intros i [|j r] HX; cbn [cons_fuse]; [reflexivity|].
+  destruct (can_fuse i j) eqn:E.
+  - destruct r as [|k r']; [reflexivity|].
+    cbn [fusedb] in HX |- *. apply andb_true_iff in HX as [H1 H2].
+    rewrite can_fuse_merge_l by exact E. rewrite H1, H2. reflexivity.
+  - cbn [fusedb]. rewrite E. cbn [negb andb]. exact HX.
+Qed.
+
+Lemma fuse_fused : forall l, fusedb (fuse l) = true.
+Proof. induction l as [|i l IH]; [reflexivity|]. rewrite fuse_cons. apply cons_fuse_fused. exact IH. Qed.
+
+Lemma fused_fuse_id : forall l, fusedb l = true -> fuse l = l.
+Proof.
+  induction l as [|i l IH]; intro H; [reflexivity|].
+  rewrite fuse_cons. destruct l as [|j r]; [reflexivity|].
+  cbn [fusedb] in H. apply andb_true_iff in H as [H1 H2].
+  rewrite IH by exact H2. cbn [cons_fuse]. apply negb_true_iff in H1. rewrite H1. reflexivity.
+Qed.
+
+Lemma fuse_idem : forall l, fuse (fuse l) = fuse l.
+Proof. intro l. apply fused_fuse_id. apply fuse_fused. Qed.
+
+Lemma cons_fuse_merge : forall i j X, can_fuse i j = true ->
+  cons_fuse i (cons_fuse j X) = cons_fuse (merge i j) X.
+Proof.
+  intros i j [|k r] H.
+  - cbn [cons_fuse]. rewrite H. reflexivity.
+  - unfold cons_fuse at 2 3. rewrite can_fuse_merge_l by exact H.
+    destruct (can_fuse j k) eqn:E; cbn [cons_fuse].
+    + rewrite can_fuse_merge_r by exact E. rewrite H. rewrite merge_assoc. reflexivity.
+    + rewrite H. reflexivity.
+Qed.
+
+Lemma fuse_app_r : forall a b, fuse (a ++ b) = fuse (a ++ fuse b).
+Proof.
+  induction a as [|i a IH]; intro b; cbn [app].
+  - symmetry. apply fuse_idem.
+  - rewrite !fuse_cons. rewrite IH. reflexivity.
+Qed.
+
+Lemma fuse_app_l : forall a b, fuse (a ++ b) = fuse (fuse a ++ b).
+Proof.
+  induction a as [|i a IH]; intro b; [reflexivity|].
+  cbn [app]. rewrite !fuse_cons. rewrite IH.
+  destruct (fuse a) as [|j r] eqn:E; cbn [cons_fuse app]; [reflexivity|].
+  destruct (can_fuse i j) eqn:F.
+  - cbn [app]. rewrite !fuse_cons. rewrite cons_fuse_merge by exact F. reflexivity.
+  - reflexivity.
+Qed.
+
+Lemma fuse_app_congr : forall a a' b b', fuse a = fuse a' -> fuse b = fuse b' -> fuse (a ++ b) = fuse (a' ++ b').
+Proof.
+  intros a a' b b' H1 H2.
+  rewrite (fuse_app_l a), (fuse_app_l a'), H1.
+  rewrite (fuse_app_r (fuse a')), (fuse_app_r (fuse a') b'), H2. reflexivity.
+Qed.
+
+Lemma fuse_pair : forall a i j b, can_fuse i j = true -> fuse (a ++ i :: j :: b) = fuse (a ++ merge i j :: b).
+Proof.
+  intros a i j b H. apply fuse_app_congr; [reflexivity|].
+  rewrite !fuse_cons. apply cons_fuse_merge. exact H.
+Qed.
+
+Lemma fuse_nil_inv : forall l, fuse l = [] -> l = [].
+Proof.
+  intros [|i l] H; [reflexivity|]. rewrite fuse_cons in H.
+  destruct (fuse l) as [|j r]; cbn [cons_fuse] in H; [discriminate|]. destruct (can_fuse i j); discriminate.
+Qed.
+
+(* ---- flattening --------------------------------------------------------------------------------------- *)
+Section ItemInd.
+  Variable P : item -> Prop.
+  Hypothesis HIt : forall i, P (It i).
+  Hypothesis HRep : forall n b, Forall P b -> P (Rep n b).
+  Fixpoint item_ind2 (x : item) : P x :=
+    match x with
+    | It i => HIt i
+    | Rep n b => HRep n b ((fix go (b : list item) : Forall P b :=
+                              match b with
+                              | [] => Forall_nil P
+                              | y :: r => Forall_cons y (item_ind2 y) (go r)
+                              end) b)
+    end.
+End ItemInd.
+
+Lemma flatten0_app : forall a b, flatten0 (a ++ b) = flatten0 a ++ flatten0 b.
+Proof. intros. unfold flatten0. apply flat_map_app. Qed.
+
+Lemma flatten0_cons : forall x c, flatten0 (x :: c) = flat_item x ++ flatten0 c.
+Proof. reflexivity. Qed.
+
+Lemma flatten0_embed : forall l, flatten0 (embed l) = l.
+Proof. induction l as [|i l IH]; [reflexivity|]. cbn [embed map]. rewrite flatten0_cons. cbn [flat_item app]. f_equal. exact IH. Qed.
+
+Lemma is_flat_embed : forall l, is_flat (embed l) = true.
+Proof. induction l as [|i l IH]; [reflexivity|]. cbn. exact IH. Qed.
+
+Lemma is_flat_embed_flatten0 : forall c, is_flat c = true -> c = embed (flatten0 c).
+Proof.
+  induction c as [|x c IH]; intro H; [reflexivity|].
+  cbn [is_flat forallb] in H. apply andb_true_iff in H as [H1 H2]. destruct x as [i|n b]; [|discriminate].
+  rewrite flatten0_cons. cbn [flat_item app embed map]. f_equal. apply IH. exact H2.
+Qed.
+
+Lemma is_flat_app : forall a b, is_flat (a ++ b) = is_flat a && is_flat b.
+Proof. intros. unfold is_flat. apply forallb_app. Qed.
+
+Lemma rep_app_app : forall {A} n (l : list A), rep_app (S n) l = l ++ rep_app n l.
+Proof. reflexivity. Qed.
+
+Lemma fuse_rep_app_congr : forall n a b, fuse a = fuse b -> fuse (rep_app n a) = fuse (rep_app n b).
+Proof.
+  induction n as [|n IH]; intros a b H; [reflexivity|].
+  cbn [rep_app]. apply fuse_app_congr; [exact H|]. apply IH. exact H.
+Qed.
+
+(* ---- equality up to unrolling and merging ----------------------------------------------------------- *)
+Definition simc (a b : circ) : Prop := fuse (flatten0 a) = fuse (flatten0 b).
+
+Lemma simc_refl : forall a, simc a a. Proof. reflexivity. Qed.
+Lemma simc_sym : forall a b, simc a b -> simc b a. Proof. unfold simc. intros. congruence. Qed.
+Lemma simc_trans : forall a b c, simc a b -> simc b c -> simc a c. Proof. unfold simc. intros. congruence. Qed.
+
+Lemma simc_app : forall a a' b b', simc a a' -> simc b b' -> simc (a ++ b) (a' ++ b').
+Proof. unfold simc. intros. rewrite !flatten0_app. apply fuse_app_congr; assumption. Qed.
+
+Lemma simc_rep : forall n a a', simc a a' -> simc [Rep n a] [Rep n a'].
+Proof.
+  unfold simc. intros n a a' H. unfold flatten0. cbn [flat_map flat_item]. rewrite !app_nil_r.
+  apply fuse_rep_app_congr. exact H.
+Qed.
+
+Lemma simc_embed_fuse : forall l, simc (embed (fuse l)) (embed l).
+Proof. intro l. unfold simc. rewrite !flatten0_embed. apply fuse_idem. Qed.
+
+(* csnoc: append with merging *)
+Lemma rev_cons_inv : forall {A} (c : list A) y r, rev c = y :: r -> c = rev r ++ [y].
+Proof. intros A c y r H. rewrite <- (rev_involutive c), H. reflexivity. Qed.
+
+Lemma csnoc_sim : forall c x Y, fuse (flatten0 (csnoc c x) ++ Y) = fuse (flatten0 c ++ flat_item x ++ Y).
+Proof.
+  intros c x Y. unfold csnoc.
+  destruct x as [i|n b].
+  - destruct (rev c) as [|y r] eqn:E.
+    + rewrite flatten0_app. rewrite <- app_assoc. cbn [flatten0 flat_map flat_item app]. reflexivity.
+    + destruct y as [j|m b'].
+      * destruct (can_fuse j i) eqn:F.
+        -- apply rev_cons_inv in E. subst c. rewrite !flatten0_app. cbn [flatten0 flat_map flat_item app].
+           rewrite <- !app_assoc. cbn [app]. symmetry. apply fuse_pair. exact F.
+        -- rewrite flatten0_app. rewrite <- app_assoc. reflexivity.
+      * rewrite flatten0_app. rewrite <- app_assoc. reflexivity.
+  - rewrite flatten0_app. rewrite <- app_assoc. cbn [flatten0 flat_map]. rewrite app_nil_r. reflexivity.
+Qed.
+
+Lemma csnoc_simc : forall c x, simc (csnoc c x) (c ++ [x]).
+Proof.
+  intros c x. unfold simc. pose proof (csnoc_sim c x []) as H. rewrite !app_nil_r in H.
+  rewrite H. rewrite flatten0_app. cbn [flatten0 flat_map]. rewrite app_nil_r. reflexivity.
+Qed.
+
+Lemma stim_iadd_simc : forall a b, simc (stim_iadd a b) (a ++ b).
+Proof.
+  intros a [|x r]; unfold stim_iadd.
+  - rewrite app_nil_r. apply simc_refl.
+  - unfold simc. rewrite flatten0_app. rewrite csnoc_sim. rewrite flatten0_app. reflexivity.
+Qed.
+
+Lemma stim_mul_simc : forall n a, (0 <= n)%Z -> simc (stim_mul n a) [Rep (Z.to_nat n) a].
+Proof.
+  intros n a Hn. unfold stim_mul.
+  destruct (n =? 0)%Z eqn:E0.
+  - apply Z.eqb_eq in E0. subst n. reflexivity.
+  - destruct (n =? 1)%Z eqn:E1.
+    + apply Z.eqb_eq in E1. subst n. unfold simc. change (Z.to_nat 1) with 1.
+      unfold flatten0 at 2. cbn [flat_map flat_item rep_app]. rewrite !app_nil_r. reflexivity.
+    + apply simc_refl.
+Qed.
+
+Lemma is_flat_csnoc : forall c x, is_flat c = true -> is_flat [x] = true -> is_flat (csnoc c x) = true.
+Proof.
+  intros c x Hc Hx. unfold csnoc. destruct x as [i|n b]; [|discriminate].
+  destruct (rev c) as [|y r] eqn:E.
+  - rewrite is_flat_app, Hc. reflexivity.
+  - destruct y as [j|m b'].
+    + destruct (can_fuse j i).
+      * apply rev_cons_inv in E. subst c. rewrite is_flat_app in Hc |- *. apply andb_true_iff in Hc as [H1 _]. rewrite H1. reflexivity.
+      * rewrite is_flat_app, Hc. reflexivity.
+    + rewrite is_flat_app, Hc. reflexivity.
+Qed.
+
+Lemma is_flat_stim_iadd : forall a b, is_flat a = true -> is_flat b = true -> is_flat (stim_iadd a b) = true.
+Proof.
+  intros a [|x r] Ha Hb; unfold stim_iadd; [exact Ha|].
+  cbn [is_flat forallb] in Hb. apply andb_true_iff in Hb as [H1 H2].
+  rewrite is_flat_app. rewrite is_flat_csnoc; [exact H2|exact Ha|]. cbn [is_flat forallb]. rewrite H1. reflexivity.
+Qed.
+
+Lemma is_flat_remove_nth : forall k c, is_flat c = true -> is_flat (remove_nth k c) = true.
+Proof.
+  induction k as [|k IH]; intros [|x c] H; cbn [remove_nth]; try reflexivity.
+  - cbn [is_flat forallb] in H. apply andb_true_iff in H as [_ H]. exact H.
+  - cbn [is_flat forallb] in H |- *. apply andb_true_iff in H as [H1 H2]. rewrite H1. apply IH. exact H2.
+Qed.
+
+Lemma is_flat_select : forall c idx, is_flat c = true -> is_flat (select c idx) = true.
+Proof.
+  intros c idx H. unfold select. induction idx as [|k idx IH]; [reflexivity|].
+  cbn [flat_map]. rewrite is_flat_app, IH, andb_true_r.
+  destruct (nth_error c k) as [x|] eqn:E; [|reflexivity].
+  apply nth_error_In in E. unfold is_flat in H. rewrite forallb_forall in H. cbn [is_flat forallb]. rewrite (H x E). reflexivity.
+Qed.
+
+(* ---- without_noise ---------------------------------------------------------------------------------- *)
+Definition wnl (l : list instr) : list instr :=
+  flat_map (fun i => match wn_instr i with Some j => [j] | None => [] end) l.
+
+Lemma wnl_app : forall a b, wnl (a ++ b) = wnl a ++ wnl b.
+Proof. intros. unfold wnl. apply flat_map_app. Qed.
+
+Lemma mpad_fusable : mem "MPAD" not_fusable_names = false. Proof. reflexivity. Qed.
+
+Lemma wn_instr_merge : forall i j, can_fuse i j = true ->
+  match wn_instr i, wn_instr j with
+  | Some i', Some j' => can_fuse i' j' = true /\ wn_instr (merge i j) = Some (merge i' j')
+  | None, None => wn_instr (merge i j) = None
+  | _, _ => False
+  end.
+Proof.
+  intros i j H. pose proof (can_fuse_inv _ _ H) as (Hf & Hn & Ha & Ht).
+  unfold wn_instr. cbn [merge iname iargs itag igroups]. rewrite <- Hn.
+  destruct (mem (iname i) meas_names) eqn:M.
+  - destruct (mem (iname i) herald_names) eqn:Hh.
+    + split.
+      * unfold can_fuse, fusable. cbn [iname]. rewrite mpad_fusable. cbn [negb andb].
+        apply same_key_eq. cbn [iname iargs itag]. auto.
+      * unfold merge. cbn [iname iargs itag igroups]. rewrite map_app. reflexivity.
+    + split.
+      * unfold can_fuse, fusable in *. cbn [iname]. rewrite Hf. cbn [andb].
+        apply same_key_eq. cbn [iname iargs itag]. auto.
+      * reflexivity.
+  - destruct (mem (iname i) noisy_names); [reflexivity|].
+    split; [exact H|reflexivity].
+Qed.
+
+Lemma fuse_wnl_cons_fuse : forall i X, fuse (wnl (cons_fuse i X)) = fuse (wnl (i :: X)).
+Proof.
+  intros i [|j r]; cbn [cons_fuse]; [reflexivity|].
+  destruct (can_fuse i j) eqn:E; [|reflexivity].
+  pose proof (wn_instr_merge i j E) as H.
+  change (wnl (merge i j :: r)) with ((match wn_instr (merge i j) with Some x => [x] | None => [] end) ++ wnl r).
+  change (wnl (i :: j :: r)) with ((match wn_instr i with Some x => [x] | None => [] end) ++
+                                   (match wn_instr j with Some x => [x] | None => [] end) ++ wnl r).
+  destruct (wn_instr i) as [i'|], (wn_instr j) as [j'|]; try contradiction.
+  - destruct H as [H1 H2]. rewrite H2. cbn [app]. symmetry. apply (fuse_pair [] i' j'). exact H1.
+  - rewrite H. reflexivity.
+Qed.
+
+Lemma fuse_wnl_fuse : forall l, fuse (wnl (fuse l)) = fuse (wnl l).
+Proof.
+  induction l as [|i l IH]; [reflexivity|].
+  rewrite fuse_cons, fuse_wnl_cons_fuse.
+  change (wnl (i :: fuse l)) with (wnl ([i] ++ fuse l)). change (wnl (i :: l)) with (wnl ([i] ++ l)).
+  rewrite !wnl_app. apply fuse_app_congr; [reflexivity|exact IH].
+Qed.
+
+Lemma fuse_wnl_congr : forall a b, fuse a = fuse b -> fuse (wnl a) = fuse (wnl b).
+Proof. intros a b H. rewrite <- (fuse_wnl_fuse a), <- (fuse_wnl_fuse b), H. reflexivity. Qed.
+
+(* stim_without_noise on a REPEAT-free circuit *)
+Lemma stim_without_noise_flat_acc : forall l acc Y,
+  fuse (flatten0 (fold_left (fun acc y => match wn_item y with Some z => csnoc acc z | None => acc end) (embed l) acc) ++ Y)
+  = fuse (flatten0 acc ++ wnl l ++ Y).
+Proof.
+  induction l as [|i l IH]; intros acc Y; [reflexivity|].
+  cbn [embed map fold_left]. fold (embed l). rewrite IH.
+  change (wnl (i :: l)) with ((match wn_instr i with Some x => [x] | None => [] end) ++ wnl l).
+  cbn [wn_item]. destruct (wn_instr i) as [j|]; cbn [option_map].
+  - rewrite csnoc_sim. cbn [flat_item]. rewrite <- !app_assoc. reflexivity.
+  - reflexivity.
+Qed.
+
+Lemma stim_without_noise_flat : forall l, fuse (flatten0 (stim_without_noise (embed l))) = fuse (wnl l).
+Proof.
+  intro l. unfold stim_without_noise. pose proof (stim_without_noise_flat_acc l [] []) as H.
+  rewrite !app_nil_r in H. exact H.
+Qed.
+
+Lemma is_flat_stim_without_noise : forall l, is_flat (stim_without_noise (embed l)) = true.
+Proof.
+  intro l. unfold stim_without_noise.
+  assert (G : forall acc, is_flat acc = true ->
+     is_flat (fold_left (fun acc y => match wn_item y with Some z => csnoc acc z | None => acc end) (embed l) acc) = true).
+  { induction l as [|i l IH]; intros acc Ha; [exact Ha|].
+    cbn [embed map fold_left]. fold (embed l). apply IH.
+    cbn [wn_item]. destruct (wn_instr i) as [j|]; cbn [option_map]; [|exact Ha].
+    apply is_flat_csnoc; [exact Ha|reflexivity]. }
+  apply G. reflexivity.
+Qed.
+
+(* ---- name filters (tsim's without_annotations) ---------------------------------------------------- *)
+Definition keepl (names : list string) (l : list instr) : list instr :=
+  filter (fun i => negb (mem (iname i) names)) l.
+
+Lemma keepl_app : forall names a b, keepl names (a ++ b) = keepl names a ++ keepl names b.
+Proof. intros. unfold keepl. apply filter_app. Qed.
+
+Lemma fuse_keepl_cons_fuse : forall names i X, fuse (keepl names (cons_fuse i X)) = fuse (keepl names (i :: X)).
+Proof.
+  intros names i [|j r]; cbn [cons_fuse]; [reflexivity|].
+  destruct (can_fuse i j) eqn:E; [|reflexivity].
+  pose proof (can_fuse_inv _ _ E) as (_ & Hn & _ & _).
+  cbn [keepl filter merge iname]. rewrite <- Hn.
+  destruct (negb (mem (iname i) names)); [|reflexivity].
+  symmetry. apply (fuse_pair [] i j). exact E.
+Qed.
+
+Lemma fuse_keepl_fuse : forall names l, fuse (keepl names (fuse l)) = fuse (keepl names l).
+Proof.
+  induction l as [|i l IH]; [reflexivity|].
+  rewrite fuse_cons, fuse_keepl_cons_fuse.
+  change (i :: fuse l) with ([i] ++ fuse l). change (i :: l) with ([i] ++ l).
+  rewrite !keepl_app. apply fuse_app_congr; [reflexivity|exact IH].
+Qed.
+
+Lemma fuse_keepl_congr : forall names a b, fuse a = fuse b -> fuse (keepl names a) = fuse (keepl names b).
+Proof. intros names a b H. rewrite <- (fuse_keepl_fuse names a), <- (fuse_keepl_fuse names b), H. reflexivity. Qed.
+
+(* ---- SHIFT_COORDS-free circuits: flattened = fuse . flatten0 -------------------------------------- *)
+Lemma add_prefix_nil : forall a, add_prefix [] a = a.
+Proof. destruct a; reflexivity. Qed.
+
+Lemma apply_shift_nil : forall i, apply_shift [] i = i.
+Proof.
+  intro i. unfold apply_shift. destruct (mem (iname i) coord_names); [|reflexivity].
+  rewrite add_prefix_nil. destruct i; reflexivity.
+Qed.
+
+Lemma noshift_cons : forall x c, noshift (x :: c) = noshift [x] && noshift c.
+Proof. intros. unfold noshift. rewrite flatten0_cons. rewrite forallb_app. unfold flatten0. cbn [flat_map]. rewrite app_nil_r. reflexivity. Qed.
+
+Lemma noshift_app : forall a b, noshift (a ++ b) = noshift a && noshift b.
+Proof. intros. unfold noshift. rewrite flatten0_app. apply forallb_app. Qed.
+
+Lemma forallb_rep_app : forall {A} (f : A -> bool) n l, forallb f (rep_app (S n) l) = forallb f l.
+Proof.
+  intros A f n l. induction n as [|n IH].
+  - cbn [rep_app]. rewrite app_nil_r. reflexivity.
+  - rewrite rep_app_app, forallb_app, IH. destruct (forallb f l); reflexivity.
+Qed.
+
+Lemma iter_sh_const : forall n (f : list Z -> list instr * list Z) o,
+  f [] = (o, []) -> iter_sh n f [] = (rep_app n o, []).
+Proof.
+  induction n as [|n IH]; intros f o H; [reflexivity|].
+  cbn [iter_sh]. rewrite H. rewrite (IH f o H). reflexivity.
+Qed.
+
+Lemma flat_sh_item_noshift : forall x, noshift [x] = true -> flat_sh_item x [] = (flat_item x, []).
+Proof.
+  induction x as [i|n b IH] using item_ind2; intro H.
+  - unfold noshift in H. cbn in H. rewrite andb_true_r in H. apply negb_true_iff in H.
+    cbn [flat_sh_item flat_item]. rewrite H. rewrite apply_shift_nil. reflexivity.
+  - cbn [flat_sh_item flat_item].
+    destruct n as [|n]; [reflexivity|].
+    assert (Hb : forallb (fun i => negb (is_shift i)) (flat_map flat_item b) = true).
+    { unfold noshift, flatten0 in H. cbn [flat_map flat_item] in H. rewrite app_nil_r in H.
+      rewrite forallb_rep_app in H. exact H. }
+    apply iter_sh_const.
+    clear H. induction b as [|y r IHr]; [reflexivity|].
+    cbn [flat_map] in Hb. rewrite forallb_app in Hb. apply andb_true_iff in Hb as [Hy Hr].
+    inversion IH as [|? ? Py Pr]; subst.
+    rewrite Py.
+    + rewrite (IHr Pr Hr). reflexivity.
+    + unfold noshift, flatten0. cbn [flat_map]. rewrite app_nil_r. exact Hy.
+Qed.
+
+Lemma flat_sh_noshift : forall c, noshift c = true -> flat_sh c [] = (flatten0 c, []).
+Proof.
+  induction c as [|x c IH]; intro H; [reflexivity|].
+  rewrite noshift_cons in H. apply andb_true_iff in H as [Hx Hc].
+  cbn [flat_sh]. rewrite (flat_sh_item_noshift x Hx). rewrite (IH Hc). reflexivity.
+Qed.
+
+Lemma flattened_l_noshift : forall c, noshift c = true -> flattened_l c = fuse (flatten0 c).
+Proof. intros c H. unfold flattened_l. rewrite (flat_sh_noshift c H). reflexivity. Qed.
+
+Lemma flattened_simc : forall c, noshift c = true -> simc (flattened c) c.
+Proof.
+  intros c H. unfold simc, flattened. rewrite flatten0_embed. rewrite (flattened_l_noshift c H). apply fuse_idem.
+Qed.
+
+Lemma is_flat_flattened : forall c, is_flat (flattened c) = true.
+Proof. intro c. apply is_flat_embed. Qed.
+
+(* names survive merging, so SHIFT_COORDS-freeness is a property of the canonical form *)
+Lemma forallb_name_cons_fuse : forall (p : string -> bool) i X,
+  forallb (fun i => p (iname i)) (cons_fuse i X) = forallb (fun i => p (iname i)) (i :: X).
+Proof.
+  intros p i [|j r]; cbn [cons_fuse]; [reflexivity|].
+  destruct (can_fuse i j) eqn:E; [|reflexivity].
+  apply can_fuse_inv in E as (_ & Hn & _ & _).
+  cbn [forallb merge iname]. rewrite <- Hn. destruct (p (iname i)); reflexivity.
+Qed.
+
+Lemma forallb_name_fuse : forall (p : string -> bool) l,
+  forallb (fun i => p (iname i)) (fuse l) = forallb (fun i => p (iname i)) l.
+Proof.
+  induction l as [|i l IH]; [reflexivity|].
+  rewrite fuse_cons, forallb_name_cons_fuse. cbn [forallb]. rewrite IH. reflexivity.
+Qed.
+
+Lemma noshift_simc : forall a b, simc a b -> noshift a = noshift b.
+Proof.
+  intros a b H. unfold noshift, is_shift.
+  rewrite <- (forallb_name_fuse (fun n => negb (String.eqb n "SHIFT_COORDS")) (flatten0 a)).
+  rewrite <- (forallb_name_fuse (fun n => negb (String.eqb n "SHIFT_COORDS")) (flatten0 b)).
+  unfold simc in H. rewrite H. reflexivity.
+Qed.
+
+(* ---- counters ----------------------------------------------------------------------------------------- *)
+Lemma sum_l_app : forall f a b, sum_l f (a ++ b) = sum_l f a + sum_l f b.
+Proof. intros f a b. induction a as [|i a IH]; [reflexivity|]. cbn [app sum_l fold_right] in *. fold (sum_l f (a ++ b)). fold (sum_l f a). lia. Qed.
+
+Lemma max_l_app : forall f a b, max_l f (a ++ b) = Nat.max (max_l f a) (max_l f b).
+Proof. intros f a b. induction a as [|i a IH]; [reflexivity|]. cbn [app max_l fold_right] in *. fold (max_l f (a ++ b)). fold (max_l f a). lia. Qed.
+
+Lemma sum_l_fuse : forall f, (forall i j, can_fuse i j = true -> f (merge i j) = f i + f j) ->
+  forall l, sum_l f (fuse l) = sum_l f l.
+Proof.
+  intros f Hf. induction l as [|i l IH]; [reflexivity|].
+  rewrite fuse_cons. change (sum_l f (i :: l)) with (f i + sum_l f l). rewrite <- IH.
+  destruct (fuse l) as [|j r]; cbn [cons_fuse]; [reflexivity|].
+  destruct (can_fuse i j) eqn:E; [|reflexivity].
+  change (sum_l f (merge i j :: r)) with (f (merge i j) + sum_l f r).
+  change (sum_l f (j :: r)) with (f j + sum_l f r). rewrite (Hf i j E). lia.
+Qed.
+
+Lemma max_l_fuse : forall f, (forall i j, can_fuse i j = true -> f (merge i j) = Nat.max (f i) (f j)) ->
+  forall l, max_l f (fuse l) = max_l f l.
+Proof.
+  intros f Hf. induction l as [|i l IH]; [reflexivity|].
+  rewrite fuse_cons. change (max_l f (i :: l)) with (Nat.max (f i) (max_l f l)). rewrite <- IH.
+  destruct (fuse l) as [|j r]; cbn [cons_fuse]; [reflexivity|].
+  destruct (can_fuse i j) eqn:E; [|reflexivity].
+  change (max_l f (merge i j :: r)) with (Nat.max (f (merge i j)) (max_l f r)).
+  change (max_l f (j :: r)) with (Nat.max (f j) (max_l f r)). rewrite (Hf i j E). lia.
+Qed.
+
+Lemma fusable_not : forall i nm, fusable i = true -> mem nm not_fusable_names = true -> String.eqb (iname i) nm = false.
+Proof.
+  intros i nm Hf Hm. destruct (String.eqb (iname i) nm) eqn:E; [|reflexivity].
+  apply String.eqb_eq in E. unfold fusable in Hf. rewrite E, Hm in Hf. discriminate.
+Qed.
+
+Lemma nmeas_merge : forall i j, can_fuse i j = true -> nmeas (merge i j) = nmeas i + nmeas j.
+Proof.
+  intros i j H. apply can_fuse_inv in H as (_ & Hn & _ & _). unfold nmeas. cbn [merge iname igroups]. rewrite <- Hn.
+  destruct (mem (iname i) meas_names); [apply app_length|reflexivity].
+Qed.
+Lemma ndet_merge : forall i j, can_fuse i j = true -> ndet (merge i j) = ndet i + ndet j.
+Proof.
+  intros i j H. apply can_fuse_inv in H as (Hf & Hn & _ & _). unfold ndet. cbn [merge iname]. rewrite <- Hn.
+  rewrite (fusable_not i "DETECTOR" Hf eq_refl). reflexivity.
+Qed.
+Lemma ntick_merge : forall i j, can_fuse i j = true -> ntick (merge i j) = ntick i + ntick j.
+Proof.
+  intros i j H. apply can_fuse_inv in H as (Hf & Hn & _ & _). unfold ntick. cbn [merge iname]. rewrite <- Hn.
+  rewrite (fusable_not i "TICK" Hf eq_refl). reflexivity.
+Qed.
+Lemma nobs_merge : forall i j, can_fuse i j = true -> nobs (merge i j) = Nat.max (nobs i) (nobs j).
+Proof.
+  intros i j H. apply can_fuse_inv in H as (Hf & Hn & _ & _). unfold nobs. cbn [merge iname]. rewrite <- Hn.
+  rewrite (fusable_not i "OBSERVABLE_INCLUDE" Hf eq_refl). reflexivity.
+Qed.
+Lemma fold_max_app : forall a b, fold_right Nat.max 0 (a ++ b) = Nat.max (fold_right Nat.max 0 a) (fold_right Nat.max 0 b).
+Proof. induction a as [|x a IH]; intro b; [reflexivity|]. cbn [app fold_right]. rewrite IH. lia. Qed.
+Lemma nqub_merge : forall i j, can_fuse i j = true -> nqub (merge i j) = Nat.max (nqub i) (nqub j).
+Proof. intros i j _. unfold nqub. cbn [merge igroups]. rewrite map_app. apply fold_max_app. Qed.
+
+Lemma counts_l_fuse : forall l, counts_l (fuse l) = counts_l l.
+Proof.
+  intro l. unfold counts_l.
+  rewrite (sum_l_fuse nmeas nmeas_merge), (sum_l_fuse ndet ndet_merge), (sum_l_fuse ntick ntick_merge),
+          (max_l_fuse nobs nobs_merge), (max_l_fuse nqub nqub_merge). reflexivity.
+Qed.
+
+Lemma sum_l_rep_app : forall f n l, sum_l f (rep_app n l) = n * sum_l f l.
+Proof. intros f n l. induction n as [|n IH]; [reflexivity|]. rewrite rep_app_app, sum_l_app, IH. lia. Qed.
+Lemma max_l_rep_app : forall f n l, max_l f (rep_app (S n) l) = max_l f l.
+Proof. intros f n l. induction n as [|n IH]; [cbn [rep_app]; rewrite app_nil_r; reflexivity|]. rewrite rep_app_app, max_l_app, IH. lia. Qed.
+
+Lemma sum_item_flat : forall f x, sum_item f x = sum_l f (flat_item x).
+Proof.
+  intros f. induction x as [i|n b IH] using item_ind2.
+  - cbn. lia.
+  - cbn [sum_item flat_item]. rewrite sum_l_rep_app. f_equal.
+    induction b as [|y r IHr]; [reflexivity|].
+    inversion IH as [|? ? Py Pr]; subst. cbn [fold_right flat_map]. rewrite sum_l_app, Py, (IHr Pr). reflexivity.
+Qed.
+Lemma max_item_flat : forall f x, max_item f x = max_l f (flat_item x).
+Proof.
+  intros f. induction x as [i|n b IH] using item_ind2.
+  - cbn. lia.
+  - cbn [max_item flat_item]. destruct n as [|n]; [reflexivity|]. rewrite max_l_rep_app.
+    induction b as [|y r IHr]; [reflexivity|].
+    inversion IH as [|? ? Py Pr]; subst. cbn [fold_right flat_map]. rewrite max_l_app, Py, (IHr Pr). reflexivity.
+Qed.
+Lemma sum_c_flat : forall f c, sum_c f c = sum_l f (flatten0 c).
+Proof. intros f c. induction c as [|x c IH]; [reflexivity|]. rewrite flatten0_cons, sum_l_app, <- IH, <- sum_item_flat. reflexivity. Qed.
+Lemma max_c_flat : forall f c, max_c f c = max_l f (flatten0 c).
+Proof. intros f c. induction c as [|x c IH]; [reflexivity|]. rewrite flatten0_cons, max_l_app, <- IH, <- max_item_flat. reflexivity. Qed.
+
+(* Stim's counters on a circuit with loops = the counters of the flattened circuit *)
+Lemma counts_c_flat : forall c, counts_c c = counts_l (flatten0 c).
+Proof. intro c. unfold counts_c, counts_l. rewrite !sum_c_flat, !max_c_flat. reflexivity. Qed.
+
+Lemma counts_simc : forall a b, simc a b -> counts_c a = counts_c b.
+Proof.
+  intros a b H. rewrite !counts_c_flat. rewrite <- (counts_l_fuse (flatten0 a)), <- (counts_l_fuse (flatten0 b)).
+  unfold simc in H. rewrite H. reflexivity.
+Qed.
